@@ -1209,6 +1209,15 @@ def python_rules(cfg, R):
 
 
 SELFTEST = [
+    # the slot taken through an accessor that returns a reference to it
+    dict(id='slot-through-a-reference-accessor-silent', edits=[
+        dict(file='src/ace_time/ZoneProcessorCache.h', find='      zoneProcessor = &mZoneProcessors[mCurrentIndex];', replace='      ZS& slot = slotAt(mCurrentIndex);\n      zoneProcessor = &slot;'),
+        dict(file='src/ace_time/ZoneProcessorCache.h', find='    ZS mZoneProcessors[SIZE];', replace='    ZS& slotAt(uint8_t i) { return mZoneProcessors[i]; }\n\n    ZS mZoneProcessors[SIZE];')],
+         expect='silent'),
+    dict(id='slot-through-a-reference-accessor-of-the-next-slot', edits=[
+        dict(file='src/ace_time/ZoneProcessorCache.h', find='      zoneProcessor = &mZoneProcessors[mCurrentIndex];', replace='      ZS& slot = slotAt(mCurrentIndex);\n      zoneProcessor = &slot;'),
+        dict(file='src/ace_time/ZoneProcessorCache.h', find='    ZS mZoneProcessors[SIZE];', replace='    ZS& slotAt(uint8_t i) { return mZoneProcessors[i + 1]; }\n\n    ZS mZoneProcessors[SIZE];')],
+         rule='R3-index'),
     dict(id='rebind-keeps-year-and-flag', file='src/ace_time/ExtendedZoneProcessor.h',
          find='          (const extended::ZoneInfo*) zoneInfo);\n      mYear = 0;\n      mIsFilled = false;\n',
          replace='          (const extended::ZoneInfo*) zoneInfo);\n', rule='R7'),
